@@ -149,4 +149,116 @@ theorem rollbackCbOut_ok (c : Ctx) (id : TxId) (blk : BlockMeta) (acc acc' : (St
             refine ⟨k1, k2, ht, fun k hne => ?_, by simp⟩
             rw [k5]; exact herase k hne
 
+/-- the coinbase output loop of Rollback as a whole -/
+theorem rollbackCbOuts_ok (c : Ctx) (id : TxId) (blk : BlockMeta) (outs : List Out) (sb0 : Store × Bals)
+    (r : (Store × Bals) × List (TxId × Nat))
+    (h : foldIdxM (rollbackCbOut c id blk) outs 0 (sb0, []) = .ok r) :
+    r.1.1.pending = sb0.1.pending ∧ r.1.1.pendIns = sb0.1.pendIns ∧ r.1.1.txrecs = sb0.1.txrecs ∧
+    (∀ k : CredKey, k.tx ≠ id → hasCred r.1.1 k = hasCred sb0.1 k) ∧
+    (∀ op ∈ r.2, op.1 = id ∧ op.2 < outs.length) ∧
+    (∀ j, j < outs.length → hasCred sb0.1 ⟨id, blk, j⟩ = true → (id, j) ∈ r.2) := by
+  have key := foldIdxM_ok_inv (fun k (a : (Store × Bals) × List (TxId × Nat)) =>
+      a.1.1.pending = sb0.1.pending ∧ a.1.1.pendIns = sb0.1.pendIns ∧ a.1.1.txrecs = sb0.1.txrecs ∧
+      (∀ key : CredKey, key.tx ≠ id → hasCred a.1.1 key = hasCred sb0.1 key) ∧
+      (∀ j, k ≤ j → hasCred a.1.1 ⟨id, blk, j⟩ = hasCred sb0.1 ⟨id, blk, j⟩) ∧
+      (∀ op ∈ a.2, op.1 = id ∧ op.2 < k) ∧
+      (∀ j, j < k → hasCred sb0.1 ⟨id, blk, j⟩ = true → (id, j) ∈ a.2))
+    (rollbackCbOut c id blk) outs 0 (sb0, []) r
+    ⟨rfl, rfl, rfl, fun _ _ => rfl, fun _ _ => rfl, fun _ hop => (by cases hop), fun _ hj => (by omega)⟩ ?_ h
+  · simp only [Nat.zero_add] at key
+    obtain ⟨p1, p2, p3, p4, _, p6, p7⟩ := key
+    exact ⟨p1, p2, p3, p4, p6, p7⟩
+  · intro a k o b' ⟨p1, p2, p3, p4, p5, p6, p7⟩ hf
+    obtain ⟨q1, q2, q3, q4, q5⟩ := rollbackCbOut_ok c id blk a b' k o hf
+    have hck : ∀ j, j ≠ k → (⟨id, blk, j⟩ : CredKey) ≠ ⟨id, blk, k⟩ := by
+      intro j hj hc; injection hc with _ _ hc; exact hj hc
+    refine ⟨q1.trans p1, q2.trans p2, q3.trans p3, fun key hk => ?_, fun j hj => ?_, fun op hop => ?_,
+      fun j hj hcr => ?_⟩
+    · have hne : key ≠ (⟨id, blk, k⟩ : CredKey) := fun hc => hk (by rw [hc])
+      have := p4 key hk
+      unfold hasCred at *
+      rw [q4 key hne]; exact this
+    · have := p5 j (by omega)
+      unfold hasCred at *
+      rw [q4 _ (hck j (by omega))]; exact this
+    · rw [q5] at hop
+      split at hop
+      · rcases List.mem_append.1 hop with hop | hop
+        · have := p6 op hop; exact ⟨this.1, by omega⟩
+        · simp only [List.mem_singleton] at hop
+          subst hop; exact ⟨rfl, Nat.lt_succ_self _⟩
+      · have := p6 op hop; exact ⟨this.1, by omega⟩
+    · rw [q5]
+      by_cases hjk : j = k
+      · subst hjk
+        rw [p5 j (Nat.le_refl _), hcr]
+        simp
+      · have := p7 j (by omega) hcr
+        split
+        · exact List.mem_append_left _ this
+        · exact this
+
+-- ------------------------------------------------------------------ one transaction record
+
+/-- rollbackTx of a NON-COINBASE transaction: exact pending lookups and spender index, nothing collected,
+    its own tx record erased, credits of other transactions keep their presence -/
+theorem rollbackTx_nc (c : Ctx) (s s' : Store) (bals bals' : Bals) (blk : BlockMeta) (id : TxId)
+    (rem : List (TxId × Nat)) (loc : BlkId × Nat) (tx : Tx)
+    (h : rollbackTx c s bals blk id = .ok (s', bals', rem))
+    (hloc : AMap.get s.txrecs (id, blk) = some loc) (htx : c.node.txByFileLoc loc = some tx) (hcb : tx.cb = false) :
+    rem = [] ∧ s'.txrecs = AMap.erase s.txrecs (id, blk) ∧
+    (∀ k, AMap.get s'.pending k = if id = k then some tx else AMap.get s.pending k) ∧
+    (∀ op x, Listed s' op x ↔ Listed s op x ∨ (x = id ∧ Spends tx op)) ∧
+    (∀ k : CredKey, k.tx ≠ id → hasCred s' k = hasCred s k) := by
+  unfold rollbackTx at h
+  rw [hloc] at h
+  simp only [htx, hcb] at h
+  simp only [Bool.false_eq_true, if_false, bind, Except.bind] at h
+  cases hin : foldIdxM (rollbackIn c id blk) tx.ins 0
+      ({ s with txrecs := AMap.erase s.txrecs (id, blk), pending := AMap.put s.pending id tx }, bals) with
+  | error e => rw [hin] at h; cases h
+  | ok sb1 =>
+    rw [hin] at h
+    simp only [] at h
+    cases hout : foldIdxM (rollbackOut c id blk) tx.outs 0 sb1 with
+    | error e => rw [hout] at h; cases h
+    | ok sb2 =>
+      rw [hout] at h
+      simp only [pure, Except.pure, Except.ok.injEq, Prod.mk.injEq] at h
+      obtain ⟨e1, _, e3⟩ := h
+      subst e1
+      obtain ⟨i1, _, _, _⟩ := rollbackIns_ok c id blk tx.ins 0 _ sb1 hin
+      obtain ⟨l1, _⟩ := rollbackIns_listed c id blk tx.ins 0 _ sb1 hin
+      obtain ⟨f1, f2⟩ := rollbackIns_frame c id blk tx.ins 0 _ sb1 hin
+      obtain ⟨o1, o2, _⟩ := rollbackOuts_ok c id blk tx.outs sb1 sb2 hout
+      obtain ⟨g1, g2⟩ := rollbackOuts_frame c id blk tx.outs 0 sb1 sb2 hout
+      refine ⟨e3.symm, g1.trans f1, fun k => ?_, fun op x => ?_, fun k hk => (g2 k hk).trans (f2 k)⟩
+      · rw [o1, i1]; show AMap.get (AMap.put s.pending id tx) k = _; rw [AMap.get_put]
+      · have := l1 op x
+        unfold Listed Spends at *; rw [o2]; exact this
+
+/-- rollbackTx of a COINBASE: the pending side is untouched; the collected outpoints are outputs of this
+    transaction, and every credit of it that was present is collected -/
+theorem rollbackTx_cb (c : Ctx) (s s' : Store) (bals bals' : Bals) (blk : BlockMeta) (id : TxId)
+    (rem : List (TxId × Nat)) (loc : BlkId × Nat) (tx : Tx)
+    (h : rollbackTx c s bals blk id = .ok (s', bals', rem))
+    (hloc : AMap.get s.txrecs (id, blk) = some loc) (htx : c.node.txByFileLoc loc = some tx) (hcb : tx.cb = true) :
+    s'.pending = s.pending ∧ s'.pendIns = s.pendIns ∧ s'.txrecs = AMap.erase s.txrecs (id, blk) ∧
+    (∀ k : CredKey, k.tx ≠ id → hasCred s' k = hasCred s k) ∧
+    (∀ op ∈ rem, op.1 = id ∧ op.2 < tx.outs.length) ∧
+    (∀ j, j < tx.outs.length → hasCred s ⟨id, blk, j⟩ = true → (id, j) ∈ rem) := by
+  unfold rollbackTx at h
+  rw [hloc] at h
+  simp only [htx, hcb] at h
+  simp only [if_true, bind, Except.bind] at h
+  cases hf : foldIdxM (rollbackCbOut c id blk) tx.outs 0
+      (({ s with txrecs := AMap.erase s.txrecs (id, blk) }, bals), []) with
+  | error e => rw [hf] at h; cases h
+  | ok r =>
+    rw [hf] at h
+    simp only [pure, Except.pure, Except.ok.injEq, Prod.mk.injEq] at h
+    obtain ⟨e1, _, e3⟩ := h
+    subst e1; subst e3
+    exact rollbackCbOuts_ok c id blk tx.outs _ r hf
+
 end MW.Lemmas.PendHist
